@@ -214,7 +214,7 @@ fn cmd_xml(c: &Cmd, node: &str, ci: usize, literal_ids: &[u32]) -> String {
         _ => String::new(),
     };
     let loc = if c.id == IdForm::Location { ", loc" } else { "" };
-    format!("    <transition event=\"cmd{ci}\">\n      <send {a}>{body}</send>\n      <script>mark('sent', '{tg}'{loc})</script>\n    </transition>\n", ci = ci, a = a, body = body, tg = tg, loc = loc)
+    format!("    <transition event=\"cmd{ci}\">\n      <send {a}>{body}</send>\n      <raise event=\"aft.{tg}\"/>\n      <script>mark('sent', '{tg}'{loc})</script>\n    </transition>\n", ci = ci, a = a, body = body, tg = tg, loc = loc)
 }
 
 const RECEIVE: &str = r##"    <transition event="p"><script>mark('rx', _event.name, _event.type, _event.sendid, _event.origin, _event.origintype, _event.invokeid, _event.data.p1, _event.data.p2, _event.data.p3)</script><send eventexpr="'reply.' + _event.name" targetexpr="_event.origin" typeexpr="_event.origintype"/></transition>
@@ -222,6 +222,7 @@ const RECEIVE: &str = r##"    <transition event="p"><script>mark('rx', _event.na
     <transition event="c"><script>mark('rx', _event.name, _event.type, _event.sendid, _event.origin, _event.origintype, _event.invokeid, _event.data)</script><send eventexpr="'reply.' + _event.name" targetexpr="_event.origin" typeexpr="_event.origintype"/></transition>
     <transition event="z"><script>mark('rx', _event.name, _event.type, _event.sendid, _event.origin, _event.origintype, _event.invokeid)</script><send eventexpr="'reply.' + _event.name" targetexpr="_event.origin" typeexpr="_event.origintype"/></transition>
     <transition event="reply"><script>mark('reply', _event.name, _event.origin)</script></transition>
+    <transition event="aft"><script>mark('aft', _event.name)</script></transition>
     <transition event="kid.ready"><script>mark('kidready', _event.invokeid, kidid, _event.origin)</script></transition>
     <transition event="error"><script>mark('err', _event.name, _event.sendid)</script></transition>
 "##;
@@ -397,7 +398,7 @@ impl Check for C15 {
     }
     fn rule(&self) -> String {
         "topologies of 2-5 router sessions started one after the other (so later documents can name earlier session ids literally), 45 % of them with an invoked child router (explicit invoke id 'kid' or generated id via idlocation), 20 % ECMAScript; each router has 1-5 command transitions executing one <send>: target none / '#_internal' / '#_scxml_<id>' literal / targetexpr '#_scxml_'+id (any session incl. itself and children) / _ioprocessors.scxml.location / '#_parent' / '#_kid' / '#_'+generated invoke id, each literal or as targetexpr; type none / 'scxml' / the full URI / typeexpr; payload none / 3 <param> (ints, strings needing escaping, variables) / namelist / <content> text / <content expr>; id none / literal / idlocation. 1-4 host threads issue 1-10 commands each concurrently. Every session marks each processed event with name, type, sendid, origin, origintype, invokeid and data members, and replies to _event.origin with typeexpr _event.origintype. \
-         Oracle: each executed send is processed exactly once, by the addressed session, from the addressed queue ('#_internal': _event.type internal and directly after the sending macrostep; otherwise external); name, sendid (literal, generated = value stored by idlocation, or blank) and data equal what was sent; exactly one reply reaches the original sender. Second part (also as its own phase with 4-16 threads x 2-8 sessions): 2-6 threads start 1-3 sessions each behind a barrier; each makes 3 idlocation sends and 2 id-less invokes: all session ids distinct, generated ids distinct within their session, invoke ids of the form stateid.platformid. \
+         Oracle: each executed send is processed exactly once, by the addressed session, from the addressed queue ('#_internal': _event.type internal and directly after the sending macrostep; own external queue (no target, own session id, own location): processed only after the internal event that is raised right after the send; otherwise _event.type external); name, sendid (literal, generated = value stored by idlocation, or blank) and data equal what was sent; exactly one reply reaches the original sender. Second part (also as its own phase with 4-16 threads x 2-8 sessions): 2-6 threads start 1-3 sessions each behind a barrier; each makes 3 idlocation sends and 2 id-less invokes: all session ids distinct, generated ids distinct within their session, invoke ids of the form stateid.platformid. \
          Non-trivial = a send crossed a session boundary or used targetexpr; distinct = hash of the topology and commands."
             .into()
     }
@@ -599,6 +600,18 @@ impl Check for C15 {
                 let next = log.iter().filter(|m| m.session == a.session && m.seq > sent.seq).min_by_key(|m| m.seq);
                 if next.map(|m| m.seq) != Some(rx.seq) {
                     return CaseResult::fail(hash, "internal-event-not-next", format!("{}: another event was processed between the send and the internal event: {:?} :: {}", what, next.map(|m| (&m.tag, &m.args)), ctx(&sc)));
+                }
+            } else if rx.session == a.session {
+                // own external queue: the internal event raised right after the send is processed first
+                let aft = log.iter().find(|m| m.session == a.session && m.tag == "aft" && m.args.first() == Some(&format!("aft.{}", tag(&a.name, *ci))));
+                match aft {
+                    Some(m) if m.seq < rx.seq => {}
+                    other => {
+                        return CaseResult::fail(hash, &format!("self-addressed-event-not-through-external-queue:{}", form), format!("{}: the event raised after the send was processed {:?} the sent event (aft mark {:?}) :: {}", what, if other.is_some() { "after" } else { "never, unlike" }, other.map(|m| m.seq), ctx(&sc)));
+                    }
+                }
+                if f(1) != "external" {
+                    return CaseResult::fail(hash, &format!("event-type:{}", form), format!("{}: _event.type is {:?}, expected external :: {}", what, f(1), ctx(&sc)));
                 }
             } else if f(1) != "external" {
                 return CaseResult::fail(hash, &format!("event-type:{}", form), format!("{}: _event.type is {:?}, expected external :: {}", what, f(1), ctx(&sc)));
